@@ -58,24 +58,25 @@ IncA(G, SP, POS) == { Inc(g, sp, pos) : g \in G, sp \in SP, pos \in POS }
 (* positions x spellings x cwds on a two-file project *)
 Big09   == ImpA({1, 2}, {1, 2, 3}, Positions) \cup IncA({2}, {1, 2}, {"top", "callback", "moduleOut", "failMsg"})
 Small09 == ImpA({2}, {0, 2}, {"top", "nested", "callback"})
-Lib09   == { << >> } \cup { << s >> : s \in ImpA({1, 2}, {1}, {"top", "nested"}) }
-Bodies09_pos == { [f \in 1..2 |-> IF f = 1 THEN b1 ELSE b2] :
+Lib09   == { << >> } \cup { << s >> : s \in ImpA({1}, {1}, {"top", "nested"}) }
+WithOut(b) == b \o << Out(1, "ok") >>          \* the entry file writes what it imported
+Bodies09_pos == { [f \in 1..2 |-> IF f = 1 THEN WithOut(b1) ELSE b2] :
                     b1 \in { << s >> : s \in Big09 } \cup { << s, t >> : s \in Big09, t \in Small09 }, b2 \in Lib09 }
 (* every import graph on three files (out-degree <= 2 quick: first file <= 2, others <= 1) *)
 G09 == ImpA({1, 2, 3}, {1}, {"top", "nested"})
 G09s == ImpA({1, 2, 3}, {1, 2}, {"top", "nested", "funcBody", "moduleBody"})
-Bodies09_graph_q == { [f \in 1..3 |-> IF f = 1 THEN b1 ELSE IF f = 2 THEN b2 ELSE b3] :
+Bodies09_graph_q == { [f \in 1..3 |-> IF f = 1 THEN WithOut(b1) ELSE IF f = 2 THEN b2 ELSE b3] :
                         b1 \in SeqsFrom(G09, 1, 2), b2 \in SeqsUpTo(G09, 1), b3 \in SeqsUpTo(G09, 1) }
-Bodies09_graph_t == [1..3 -> SeqsUpTo(G09, 2)]
+Bodies09_graph_t == { [f \in 1..3 |-> IF f = 1 THEN WithOut(b[1]) ELSE b[f]] : b \in [1..3 -> SeqsUpTo(G09, 2)] }
 (* same name in two directories: a path resolved against the wrong base finds the wrong file *)
-Bodies09_twin == { [f \in 1..3 |-> IF f = 1 THEN b1 ELSE << >>] :
+Bodies09_twin == { [f \in 1..3 |-> IF f = 1 THEN WithOut(b1) ELSE << >>] :
                      b1 \in SeqsFrom(ImpA({2, 3}, {1, 2}, Positions), 1, 2) }
 CwdAll == {0, 1, 2}
 Cwd0 == {0}
 OrdersFirst == { << 1 >> }
 
 (* ---- C16: batches -------------------------------------------------------------------- *)
-A16(G) == ImpA(G, {1}, {"top", "nested"}) \cup { Out(1, "ok"), Out(4, "bad"), RtErr, TyErr }
+A16(G) == ImpA(G, {1}, {"top", "nested"}) \cup { Out(1, "ok"), Out(4, "bad"), RtErr, TyErr, Lit }
 Bodies16_2x2 == [1..2 -> SeqsUpTo(A16({1, 2}), 2)]
 Bodies16_3x1 == [1..3 -> SeqsUpTo(A16({1, 2, 3}), 1)]
 Bodies16_3mix == { [f \in 1..3 |-> IF f = 1 THEN b1 ELSE IF f = 2 THEN b2 ELSE b3] :
